@@ -25,11 +25,41 @@ ASSUMPTIONS = [
 ]
 
 
+def shrink_symbolic_dims(comp, dec, dimvec):
+    """A model of a free dimension may be ~2^31: replays use the smallest size that still contains
+    every stored coordinate (+2), which follows the same path when the property holds."""
+    import copy
+
+    from ..explore import index_classes, tensor_index_lists
+
+    cls = index_classes(comp.assignment)
+    lists = tensor_index_lists(comp.assignment)
+    d2 = copy.deepcopy(dec)
+    for c, v in dimvec.items():
+        if v != "sym":
+            continue
+        need = 0
+        for name, t in d2["inputs"].items():
+            fmt = comp.formats[name]
+            for l, lv in enumerate(t["indices"]):
+                if lv and cls[lists[name][fmt.ordering[l]]] == c and lv[1]:
+                    need = max(need, max(lv[1]) + 1)
+        newd = min(d2["dimvals"][c], need + 2)
+        d2["dimvals"][c] = newd
+        for name, t in d2["inputs"].items():
+            t["dimensions"] = [newd if cls[i] == c else old for i, old in zip(lists[name], t["dimensions"])]
+        d2["output_dimensions"] = [newd if cls[i] == c else old
+                                   for i, old in zip(lists[comp.target], d2["output_dimensions"])]
+    return d2
+
+
 def confirm(rec, families):
     """Replay a solver counterexample: concrete IR machine, then the real LLVM kernel."""
     req = Request.make(rec["request"]["assignment"], rec["request"]["formats"])
     comp = compile_request(req)
     dec = rec["violation"].get("decoded")
+    if dec is not None and rec.get("symbolic_dimension"):
+        dec = shrink_symbolic_dims(comp, dec, rec.get("dimvec", {}))
     out = {"ir": None, "real": None, "asan": None, "confirmed": False, "where": []}
     if dec is None:
         return out
@@ -103,7 +133,8 @@ def run(pid: str, tier: str, families=None, extra_requests=None, worker=None, va
         D, N, dim_mode, max_paths, tb = 3, 2, "corners", 30000, 900
     if extra_requests:
         reqs = reqs + extra_requests
-    tasks = ksweep.build_tasks(reqs, D, N, families, dim_mode, max_paths, tb)
+    tasks = ksweep.build_tasks(reqs, D, N, families, dim_mode, max_paths, tb,
+                               symbolic_dims=(pid in ("C01", "C02", "C03")))
     if variants:
         tasks = [{**t, **v} for t in tasks for v in variants]
     if task_filter:
@@ -208,7 +239,9 @@ def run(pid: str, tier: str, families=None, extra_requests=None, worker=None, va
         "requests_with_growth_path": len(grew_requests),
         "budget_exceeded": budget, "rotating_requests": sorted(rotating),
         "rotating_requests_cut_by_budget": rotating_cut,
+        "symbolic_dimension_tasks": sum(1 for t in tasks if t.get("symbolic_dimension")),
         "bounds": {"dense_dimension_max": D, "stored_entries_per_compressed_level": N,
+                   "sparse_only_dimensions": "additionally free in [0, 2^31-1] (one extra task per request that has one)",
                    "dimension_vectors": dim_mode, "initial_capacity": "symbolic in [1, 2^20]",
                    "max_paths_per_task": max_paths},
         "functions_encoded": functions or ["tensora.generate.generate_module_tensora (output IR executed symbolically)",
@@ -254,6 +287,8 @@ def validate_witnesses(results, families, limit):
         comp = compile_request(req)
         if has_broadcast_target(comp.assignment):
             continue
+        if r.get("symbolic_dimension"):
+            w = shrink_symbolic_dims(comp, w, r.get("dimvec", {}))
         ir = replay.concrete_ir_run(comp, ["evaluate"], w)
         if ir["violation"] is not None:
             problems.append(f"witness of a verified path violates on the IR machine: {req.key()} {ir['violation']}")
